@@ -2,7 +2,8 @@
    meet the biorthogonal condition (discharged for the shipped tables, within 2^-44, in C18_tables: level1_PR and
    level1_symmetric), and the quad <-> complex conversion. *)
 From PW Require Import Base.Ops Base.Sum Base.Sig Base.Tensor Model.Dwt Model.Dtcwt Spec.Line Spec.DtcwtRef Proofs.DwtNF Proofs.DtcwtNF Proofs.QuadProofs Proofs.SymExt
-  Proofs.QshiftAdj Proofs.QshiftPR Proofs.QshiftTensor Proofs.TablesProofs Proofs.QshiftTables.
+  Proofs.QshiftAdj Proofs.QshiftPR Proofs.QshiftTensor Proofs.TablesProofs Proofs.QshiftTables
+  Proofs.DtcwtNFrow Proofs.QshiftLevel Proofs.DtcwtLevel1 Proofs.DtcwtPR.
 
 (* the symmetric extension of the output of a symmetric odd filter is the line filtering of the symmetric extension:
    this is what lets the synthesis filters see a correctly extended signal *)
@@ -78,6 +79,57 @@ Theorem C04_qshift_stage_col :
     forall n c i j, 0 <= c < tC x -> 0 <= i < tH x -> 0 <= j < tW x -> radd Op (tf y0 n c i j) (tf y1 n c i j) = tf x n c i j)))).
 Proof. exact @dfilt_ifilt_pr_col. Qed.
 Print Assumptions C04_qshift_stage_col.
+
+(* ---- whole levels and the whole pyramid, 2-D, on the model of the code ----
+   same_on X Y: Y has the shape of X and equals X on its extent.  The ring element s stands for 1/sqrt 2 (2 s^2 = 1). *)
+(* level 1: rows then columns with colfilter/rowfilter, q2c, and back (c2q, the crop is a no-op on even sizes) *)
+Theorem C04_level1_2d :
+  forall (R:Type) (Op:Ops R) (Rth:RingOk Op) Lh0 Lg0 Lh1 Lg1 M (h0 g0 h1 g1:Z->R),
+  Lh0 mod 2 = 1 /\ Lh1 mod 2 = 1 -> Symmetric Lh0 h0 /\ Symmetric Lh1 h1 ->
+  1 <= Lg0 /\ 1 <= Lg1 /\ 1 <= Lh0 /\ 1 <= Lh1 /\ Lg0 mod 2 = 1 /\ Lg1 mod 2 = 1 ->
+  Lg0/2 + Lh0/2 = M /\ Lg1/2 + Lh1/2 = M /\ Lg0 + Lh0 - 1 = 2*M + 1 /\ Lg1 + Lh1 - 1 = 2*M + 1 ->
+  BiortPR Op Lh0 Lg0 Lh1 Lg1 M h0 g0 h1 g1 ->
+  forall s:R, rmul Op (rmul Op (radd Op (r1 Op) (r1 Op)) s) s = r1 Op ->
+  forall x:@ten R, 2 <= tH x -> tH x mod 2 = 0 -> 2 <= tW x -> tW x mod 2 = 0 -> 0 < tC x ->
+  is_ok (fwd_j1 Op s x Lh0 h0 Lh1 h1 false M_SYMM) (fun r =>
+  is_ok (inv_j1 Op s (Some (fst r)) (snd r) Lg0 g0 Lg1 g1 M_SYMM) (same_on x)).
+Proof. exact @level1_pr_2d. Qed.
+Print Assumptions C04_level1_2d.
+
+(* one level >= 2: rowdfilt/coldfilt, q2c, and back with colifilt/rowifilt *)
+Theorem C04_qshift_level_2d :
+  forall (R:Type) (Op:Ops R) (Rth:RingOk Op) (s:R), rmul Op (rmul Op (radd Op (r1 Op) (r1 Op)) s) s = r1 Op ->
+  forall L (H0A H0B G0A G0B H1A H1B G1A G1B:Z->R), 2 <= L /\ L mod 2 = 0 ->
+  RevPair L H0A H0B -> RevPair L G0A G0B -> RevPair L H1A H1B -> RevPair L G1A G1B ->
+  QPRref Op L true H0A H0B G0A G0B false H1A H1B G1A G1B ->
+  forall x:@ten R, 4 <= tH x -> tH x mod 4 = 0 -> 4 <= tW x -> tW x mod 4 = 0 -> 0 < tC x ->
+  is_ok (fwd_j2plus Op s x L (rev_filt L H0B) (rev_filt L H0A) L (rev_filt L H1B) (rev_filt L H1A) false) (fun r =>
+  is_ok (inv_j2plus Op s (Some (fst r)) (snd r) L (rev_filt L G0B) (rev_filt L G0A) L (rev_filt L G1B) (rev_filt L G1A)) (same_on x)).
+Proof. exact @qshift_level_pr. Qed.
+Print Assumptions C04_qshift_level_2d.
+
+(* the whole pyramid: every J = 1 + length m, every image size >= 1 (odd sizes are first extended by repeating the last row /
+   column): the forward loop pads each lowpass to a multiple of 4, the inverse loop crops it again, and the result is the
+   even-extended image with the original in its top-left corner *)
+Theorem C04_pyramid :
+  forall (R:Type) (Op:Ops R) (Rth:RingOk Op) (s:R), rmul Op (rmul Op (radd Op (r1 Op) (r1 Op)) s) s = r1 Op ->
+  forall L (H0A H0B G0A G0B H1A H1B G1A G1B:Z->R), 2 <= L /\ L mod 2 = 0 ->
+  RevPair L H0A H0B -> RevPair L G0A G0B -> RevPair L H1A H1B -> RevPair L G1A G1B ->
+  QPRref Op L true H0A H0B G0A G0B false H1A H1B G1A G1B ->
+  forall Lh0 Lg0 Lh1 Lg1 M (h0 g0 h1 g1:Z->R),
+  Lh0 mod 2 = 1 /\ Lh1 mod 2 = 1 -> Symmetric Lh0 h0 /\ Symmetric Lh1 h1 ->
+  1 <= Lg0 /\ 1 <= Lg1 /\ 1 <= Lh0 /\ 1 <= Lh1 /\ Lg0 mod 2 = 1 /\ Lg1 mod 2 = 1 ->
+  Lg0/2 + Lh0/2 = M /\ Lg1/2 + Lh1/2 = M /\ Lg0 + Lh0 - 1 = 2*M + 1 /\ Lg1 + Lh1 - 1 = 2*M + 1 ->
+  BiortPR Op Lh0 Lg0 Lh1 Lg1 M h0 g0 h1 g1 ->
+  forall (m:list bool) (x:@ten R), 1 <= tH x -> 1 <= tW x -> 0 < tC x ->
+  is_ok (DTCWTForward Op s (false :: map (fun _ => false) m) x Lh0 h0 Lh1 h1
+           L (rev_filt L H0B) (rev_filt L H0A) L (rev_filt L H1B) (rev_filt L H1A) M_SYMM) (fun lst =>
+  is_ok (DTCWTInverse Op s (Some (fst (last lst (x, nil)))) (map snd lst) Lg0 g0 Lg1 g1
+           L (rev_filt L G0B) (rev_filt L G0A) L (rev_filt L G1B) (rev_filt L G1A) M_SYMM) (fun y =>
+    same_on (force Op (ext_even x)) y /\
+    forall n c i j, 0 <= c < tC x -> 0 <= i < tH x -> 0 <= j < tW x -> tf y n c i j = tf x n c i j)).
+Proof. exact @dtcwt_pr. Qed.
+Print Assumptions C04_pyramid.
 
 (* (i) holds exactly and (ii) within 2^-48 entrywise (qshift_32: 2^-26) for every shipped q-shift table, and all eight filters
    of a table have the same even length; the exact condition is satisfiable over Z *)
